@@ -350,6 +350,8 @@ class Interp:
         while stack:
             n = stack.pop()
             yield n
+            if isinstance(n, (ast.FunctionDef, ast.AsyncFunctionDef, ast.ClassDef, ast.Lambda)):
+                continue
             for ch in ast.iter_child_nodes(n):
                 if isinstance(ch, (ast.FunctionDef, ast.AsyncFunctionDef, ast.ClassDef, ast.Lambda)):
                     continue
